@@ -1,0 +1,51 @@
+//go:build verif
+
+// Contracts for the govc verifier (/verif). This file contains comments only; it is compiled
+// only under the build tag "verif" and contributes no declarations.
+package rlp
+
+// ---------------------------------------------------------------------------------------------
+// Specification functions (C08): the canonical RLP header of a string/list of a given size.
+//
+//@ spec fn rlpNbytes(x uint64) uint64 = ite(x < 256, uint64(1), ite(x < 65536, uint64(2), ite(x < 16777216, uint64(3), ite(x < 4294967296, uint64(4), ite(x < 1099511627776, uint64(5), ite(x < 281474976710656, uint64(6), ite(x < 72057594037927936, uint64(7), uint64(8))))))))
+//@ spec fn rlpBeByte(b []byte, n uint64, k uint64) uint64 = ite(k < n, uint64(b[n-1-k]) << (8*k), uint64(0))
+//@ spec fn rlpBe(b []byte, n uint64) uint64 = rlpBeByte(b,n,0) | rlpBeByte(b,n,1) | rlpBeByte(b,n,2) | rlpBeByte(b,n,3) | rlpBeByte(b,n,4) | rlpBeByte(b,n,5) | rlpBeByte(b,n,6) | rlpBeByte(b,n,7)
+//@ spec fn rlpBase(k Kind) byte = ite(k == List, byte(192), byte(128))
+//@ spec fn rlpHeadOK(buf []byte, k Kind, ts uint64, cs uint64) bool =
+//@      (cs < 56 && ts == 1 && len(buf) >= 1 && buf[0] == rlpBase(k) + byte(cs))
+//@   || (cs >= 56 && ts == 1 + rlpNbytes(cs) && uint64(len(buf)) >= ts && buf[0] == rlpBase(k) + 55 + byte(rlpNbytes(cs)) && rlpBe(buf[1:], rlpNbytes(cs)) == cs)
+
+// ---------------------------------------------------------------------------------------------
+// raw.go
+
+//@ func readSize
+//@   property C08
+//@   ensures [canon] result1 == nil ==> 1 <= slen && slen <= 8 && uint64(slen) <= uint64(len(b))
+//@        && result0 == rlpBe(b, uint64(slen)) && result0 >= 56 && b[0] != 0
+//@   ensures [minimal] result1 == nil ==> rlpNbytes(result0) == uint64(slen)
+//@   modifies nothing
+
+//@ func readKind
+//@   property C08
+//@   ensures [bounds] err == nil ==> wide(tagsize) + wide(contentsize) <= wide(uint64(len(buf)))
+//@   ensures [byte]   err == nil && k == Byte ==> tagsize == 0 && contentsize == 1 && buf[0] < 128
+//@   ensures [canon]  err == nil && k != Byte ==> (k == String || k == List) && rlpHeadOK(buf, k, tagsize, contentsize)
+//@   ensures [single] err == nil && k == String && contentsize == 1 ==> buf[1] >= 128
+//@   ensures [errzero] err != nil ==> k == 0 && tagsize == 0 && contentsize == 0
+//@   modifies nothing
+
+//@ func Split
+//@   property C08
+//@   ensures [bounds] err == nil ==> wide(uint64(len(content))) + wide(uint64(len(rest))) <= wide(uint64(len(b)))
+//@   ensures [parts]  err == nil ==> ref(content) == ref(b) && ref(rest) == ref(b)
+//@        && uint64(off(rest)) == uint64(off(content)) + uint64(len(content))
+//@        && uint64(off(rest)) + uint64(len(rest)) == uint64(off(b)) + uint64(len(b))
+//@   ensures [head]   err == nil && k != Byte ==> rlpHeadOK(b, k, uint64(off(content)) - uint64(off(b)), uint64(len(content)))
+//@   ensures [err]    err != nil ==> len(rest) == len(b) && ref(rest) == ref(b) && off(rest) == off(b)
+//@   modifies nothing
+
+//@ func CountValues
+//@   property C08
+//@   loop 0: invariant i >= 0 && ref(b) == old(ref(b)) && uint64(off(b)) + uint64(len(b)) == old(uint64(off(b)) + uint64(len(b))) && uint64(off(b)) >= old(uint64(off(b))) && uint64(i) <= uint64(off(b)) - old(uint64(off(b)))
+//@   ensures [count] result1 == nil ==> result0 >= 0 && uint64(result0) <= uint64(len(b))
+//@   modifies nothing
